@@ -378,15 +378,24 @@ def _fs_effect(c: ast.Call) -> str | None:
 def _enabled(ctx, col):
     cm = ctx.ct.get("CheckpointMixin")
     owner, fn = ctx.ct.require(cm, "is_checkpointing_enabled")
-    rets = [n for n in ast.walk(fn) if isinstance(n, ast.Return)]
+    from .common import returned_expr
+    rv = returned_expr(fn)
     ok = False
-    if len(rets) == 1 and rets[0].value is not None:
-        conj = _flatten_and(rets[0].value)
-        ok = any(
-            isinstance(c, ast.Compare) and len(c.ops) == 1 and isinstance(c.ops[0], ast.Gt)
-            and is_self_attr(c.left, "checkpoint_frequency") and isinstance(c.comparators[0], ast.Constant) and c.comparators[0].value == 0
-            for c in conj
-        )
+    if rv is not None:
+        conj = _flatten_and(rv)
+        def positive(c):
+            if not (isinstance(c, ast.Compare) and len(c.ops) == 1):
+                return False
+            l, r, op = c.left, c.comparators[0], c.ops[0]
+            if isinstance(op, ast.Gt) and is_self_attr(l, "checkpoint_frequency") and isinstance(r, ast.Constant) and r.value == 0:
+                return True
+            if isinstance(op, ast.Lt) and is_self_attr(r, "checkpoint_frequency") and isinstance(l, ast.Constant) and l.value == 0:
+                return True
+            if isinstance(op, ast.GtE) and is_self_attr(l, "checkpoint_frequency") and isinstance(r, ast.Constant) and r.value == 1:
+                return True
+            return False
+
+        ok = any(positive(c) for c in conj)
     col.add("R12.1", "CheckpointMixin.is_checkpointing_enabled", owner.module.relpath, fn.lineno, ok,
             "enabled implies self.checkpoint_frequency > 0" if ok else "enabled-test does not require checkpoint_frequency > 0",
             text="is_checkpointing_enabled")
